@@ -11,6 +11,7 @@
   differential check only; it violates the property for degenerate metrics (known findings F7a/F7b).
 -/
 import Kingdon.Lemmas.Naturality
+import Kingdon.Lemmas.MiscLemmas
 import Kingdon.Lemmas.OpDictLemmas
 namespace Kingdon.C13
 open Finsupp
@@ -27,5 +28,15 @@ theorem symbol_class_irrelevant (φ : α →+* β) (signf : Nat → Nat → Int)
 theorem wrapper_irrelevant (canon : List Nat) (hc : canon.Nodup) (genFails : OD.FuncId → Bool) (h : List OD.FuncId) :
     (OD.run canon genFails true OD.init h).2 = (OD.run canon genFails false OD.init h).2 := by
   rw [OD.history_independent_fresh canon hc genFails true h, OD.history_independent_fresh canon hc genFails false h]
+
+/-- graded mode, linear operators: negation and the involutions keep the stored key tuple, sums and differences of
+    operands with the same key tuple keep it, the Hodge dual stores the complement blades — complete grades stay
+    complete (for the product-type operators this FAILS in degenerate metrics: known findings F7a/F7b) -/
+theorem linear_operators_keep_keys_partial {γ : Type} [Neg γ] [Add γ] [Sub γ] (gs : List Nat) (c : Cfg) (u : Bool) (x y : MV γ)
+    (h : x.map (·.1) = y.map (·.1)) (hn : (x.map (·.1)).Nodup) :
+    (neg x).map (·.1) = x.map (·.1) ∧ (involutions gs x).map (·.1) = x.map (·.1) ∧
+    (add x y).map (·.1) = x.map (·.1) ∧ (sub x y).map (·.1) = x.map (·.1) ∧
+    (hodgeGen c u x).map (·.1) = x.map (fun kv => c.pss - kv.1) :=
+  ⟨keys_neg x, keys_involutions gs x, keys_add_same x y h hn, keys_sub_same x y h hn, keys_hodge c u x⟩
 
 end Kingdon.C13
